@@ -25,17 +25,17 @@ import (
 )
 
 type protoRun struct {
-	Proto   string // ecdsa-keygen | ecdsa-signing | ecdsa-resharing | eddsa-keygen | eddsa-signing | eddsa-resharing
-	Key     keyChoice
-	Keys    []H   `json:",omitempty"` // keygen: party keys (drawn order)
-	Members []int `json:",omitempty"` // signing: signers; resharing: participating old members (party indices, drawn order)
-	Msg     H     `json:",omitempty"`
-	NewKeys []H   `json:",omitempty"` // resharing: new committee party keys
-	NewT    int   `json:",omitempty"`
-	Proofs  bool  `json:",omitempty"` // ECDSA resharing: mod/fac proofs on (production path)
-	BadXi   []int `json:",omitempty"` // positions in Members whose party runs with a wrong secret share (Xi+1)
-	WeakPre []int `json:",omitempty"` // ECDSA keygen / resharing: sorted party indices (new-committee indices) that bring under-sized parameters
-	WeakBits int  `json:",omitempty"`
+	Proto    string // ecdsa-keygen | ecdsa-signing | ecdsa-resharing | eddsa-keygen | eddsa-signing | eddsa-resharing
+	Key      keyChoice
+	Keys     []H   `json:",omitempty"` // keygen: party keys (drawn order)
+	Members  []int `json:",omitempty"` // signing: signers; resharing: participating old members (party indices, drawn order)
+	Msg      H     `json:",omitempty"`
+	NewKeys  []H   `json:",omitempty"` // resharing: new committee party keys
+	NewT     int   `json:",omitempty"`
+	Proofs   bool  `json:",omitempty"` // ECDSA resharing: mod/fac proofs on (production path)
+	BadXi    []int `json:",omitempty"` // positions in Members whose party runs with a wrong secret share (Xi+1)
+	WeakPre  []int `json:",omitempty"` // ECDSA keygen / resharing: sorted party indices (new-committee indices) that bring under-sized parameters
+	WeakBits int   `json:",omitempty"`
 }
 
 func (p protoRun) edd() bool { return p.Proto[:5] == "eddsa" }
@@ -477,7 +477,6 @@ func (x *runCtx) judgeNewCommitteeHonest(only map[int]bool, dev int) *runProblem
 	}
 	return nil
 }
-
 
 // weakPreParams builds a structurally correct but under-sized pre-parameter set (Paillier modulus and
 // ring-Pedersen modulus of `bits` bits), the way prepare.go builds the full-size one.
